@@ -194,7 +194,32 @@ def implicit_parent_sites(seq, n):
 BYSTANDERS = ['ul', 'table', 'em', 'select', 'tr']
 
 
+def check_context(seq, labels, name):
+    "a `context` element is the parent of the top-level elements only: nested implicit elements still follow their real parent"
+    abbr = M.render(seq, labels)
+    tree = M.unroll(M.denote(seq, labels))
+    exp = M.events(tree, 'html', INLINE, name)
+    try:
+        out = expand(abbr, {'options': {'output.format': False, 'inlineElements': list(INLINE)}, 'context': {'name': name}})
+        got = structure(lex_html(out))
+    except Exception as e:
+        return ('exception:%s' % type(e).__name__, dict(error=str(e)[:200]))
+    if got != exp:
+        cls = classify(exp, got)
+        return ('implicit-name:context-element' if cls == 'tree:element-name' else cls, dict(abbr=abbr, context=name, expected=exp[:40], actual=got[:40]))
+    return None
+
+
 def run_bystanders(seq, n, labels, parents, ctx):
+    for name in ('tr', 'em', 'section'):
+        ctx.states += 1
+        ctx.transitions += 1
+        ctx.evals += 1
+        ctx.validated += 1
+        ctx.nontrivial += 1
+        bad = check_context(seq, labels, name)
+        if bad:
+            ctx.violation(bad[0], dict(case_of(seq, labels, 'html', False, INLINE), context=name), bad[1])
     for q in range(n):
         if labels[q][0] in '.#[' or q in parents:
             continue
@@ -329,6 +354,9 @@ def check_case(case):
     if 'compose' in case:
         return compose_check(*case['compose'])
     seq = _tuplify(case['seq'])
+    if case.get('context'):
+        bad = check_context(seq, case['labels'], case['context'])
+        return [bad] if bad else []
     abbr, tree, bad = check_one(seq, case['labels'], case['style'], case['format'], case.get('inline'))
     if bad and bad[0] == 'tree:element-name' and case.get('bystander'):
         bad = ('implicit-name:taken-from-an-element-that-is-not-the-parent', bad[1])
